@@ -48,9 +48,13 @@ DTS = [0, 0, 0, 0, 1, 10, 100, 1000]
 @st.composite
 def send_op(draw, nchan, big=False):
     length = draw(st.one_of(st.sampled_from(LENGTHS if big else LENGTHS[:10]), st.integers(0, 3000)))
-    return {"op": "send", "ch": draw(st.integers(0, max(0, nchan - 1))), "side": draw(st.integers(0, 1)),
-            "kind": draw(st.sampled_from(["str", "bytes"])), "len": length, "fill": draw(st.integers(0, 255)),
-            "dt": draw(st.sampled_from(DTS))}
+    op = {"op": "send", "ch": draw(st.integers(0, max(0, nchan - 1))), "side": draw(st.integers(0, 1)),
+          "kind": draw(st.sampled_from(["str", "bytes"])), "len": length, "fill": draw(st.integers(0, 255)),
+          "dt": draw(st.sampled_from(DTS))}
+    if draw(st.integers(0, 11)) == 0:
+        # a payload that looks like a protocol artefact (a lone NUL is what an empty message travels as, DCEP-like bytes)
+        op["special"] = draw(st.integers(0, 7))
+    return op
 
 
 @st.composite
